@@ -456,6 +456,12 @@ bool ParameterList::matchParametersValues(const ParameterList& params, vector<si
 /******************************************************************************/
 void ParameterList::setAllParameters(const ParameterList& params)
 {
+  // First we check that every parameter has a source (nothing is assigned otherwise):
+  for (vector<shared_ptr<Parameter>>::iterator it = parameters_.begin(); it < parameters_.end(); it++)
+  {
+    params.parameter((*it)->getName());
+  }
+
   for (vector<shared_ptr<Parameter>>::iterator it = parameters_.begin(); it < parameters_.end(); it++)
   {
     const Parameter* p = &params.parameter((*it)->getName());
@@ -466,6 +472,12 @@ void ParameterList::setAllParameters(const ParameterList& params)
 /******************************************************************************/
 void ParameterList::setParameters(const ParameterList& params)
 {
+  // First we check that every parameter has a target (nothing is assigned otherwise):
+  for (vector<shared_ptr<Parameter>>::const_iterator it = params.parameters_.begin(); it < params.parameters_.end(); it++)
+  {
+    parameter((*it)->getName());
+  }
+
   for (vector<shared_ptr<Parameter>>::const_iterator it = params.parameters_.begin(); it < params.parameters_.end(); it++)
   {
     Parameter* p = &parameter((*it)->getName());
